@@ -54,6 +54,15 @@ namespace c08
         virtual void  digest(hasher& h)                         = 0;
         virtual long  cap(const shape& s)                       = 0; // nodes (pools) / bytes (stacks)
         virtual long  release_delta(const shape& s)             = 0; // expected growth of cap(s) when s is released
+        virtual int   iterations()                              // N of an iteration_allocator<N>, 0 otherwise
+        {
+            return 0;
+        }
+        virtual int  cur_iteration()
+        {
+            return 0;
+        }
+        virtual void next_iteration() {}
     };
 
     template <class A>
@@ -117,6 +126,25 @@ namespace c08
             else
                 return long(a->capacity_left());
         }
+        int iterations() override
+        {
+            if constexpr (kind_of<A>::value == K_ITER)
+                return int(A::max_iterations());
+            else
+                return 0;
+        }
+        int cur_iteration() override
+        {
+            if constexpr (kind_of<A>::value == K_ITER)
+                return int(a->cur_iteration());
+            else
+                return 0;
+        }
+        void next_iteration() override
+        {
+            if constexpr (kind_of<A>::value == K_ITER)
+                a->next_iteration();
+        }
         long release_delta(const shape& s) override
         {
             if constexpr (kind_of<A>::value == K_POOL)
@@ -171,12 +199,13 @@ namespace c08
         s->make = [=](void* mem, int id) { return ::new (mem) A(r16(bs), id); };
         return s;
     }
-    inline ISib* mk_iter(std::size_t bs, shape n, shape a)
+    template <std::size_t NI = 2>
+    ISib* mk_iter(std::size_t bs, shape n, shape a)
     {
-        using A = fm::iteration_allocator<2, vblk>;
+        using A = fm::iteration_allocator<NI, vblk>;
         auto s  = new Sib<A>();
         s->kind = K_ITER;
-        s->name = fmt("iteration_allocator<2>(block %zu)", bs);
+        s->name = fmt("iteration_allocator<%zu>(block %zu)", NI, bs);
         s->ns   = n;
         s->as   = a;
         s->make = [=](void* mem, int id) { return ::new (mem) A(r16(bs), id); };
@@ -219,7 +248,7 @@ namespace c08
                       mk_coll<fm::array_pool, fm::log2_buckets>("collection<array_pool,log2>", 32, 288, N(16, 8), R(3, 8, 8), true),
                       mk_coll<fm::small_node_pool, fm::log2_buckets>("collection<small_node_pool,log2>", 16, 1024, N(5, 1), R(2, 8, 8), false)}});
         v.push_back({"stack", {mk_stack(64, N(32, 8), R(2, 8, 8)), mk_stack(64, N(16, 8), R(2, 16, 8)), mk_stack(96, N(32, 8), R(3, 8, 8))}});
-        v.push_back({"iter", {mk_iter(64, N(16, 8), R(2, 8, 8)), mk_iter(64, N(16, 16), R(2, 8, 8)), mk_iter(96, N(8, 8), R(3, 8, 8))}});
+        v.push_back({"iter", {mk_iter<2>(64, N(16, 8), R(2, 8, 8)), mk_iter<3>(96, N(16, 16), R(2, 8, 8)), mk_iter<2>(96, N(8, 8), R(3, 8, 8))}});
         v.push_back({"mixed_a",
                      {mk_pool<fm::array_pool>("memory_pool<array_pool>", 16, 3, N(16, 8), R(2, 16, 8), true), mk_stack(64, N(16, 8), R(2, 16, 8)),
                       mk_coll<fm::array_pool, fm::log2_buckets>("collection<array_pool,log2>", 16, 192, N(16, 8), R(2, 8, 8), true)}});
@@ -227,8 +256,8 @@ namespace c08
                      {mk_pool<fm::small_node_pool>("memory_pool<small_node_pool>", 16, 2, N(16, 8), R(2, 8, 8), false),
                       mk_stack(64, N(32, 8), R(2, 8, 8)), mk_iter(64, N(16, 8), R(2, 8, 8))}});
         v.push_back({"mixed_c",
-                     {mk_iter(64, N(16, 8), R(2, 8, 8)), mk_pool<fm::node_pool>("memory_pool<node_pool>", 16, 2, N(16, 8), R(2, 16, 8), true),
-                      mk_iter(96, N(16, 8), R(3, 8, 8))}});
+                     {mk_iter<2>(64, N(16, 8), R(2, 8, 8)), mk_pool<fm::node_pool>("memory_pool<node_pool>", 16, 2, N(16, 8), R(2, 16, 8), true),
+                      mk_iter<3>(144, N(16, 8), R(3, 8, 8))}});
         v.push_back({"mixed_d",
                      {mk_coll<fm::node_pool, fm::identity_buckets>("collection<node_pool,identity>", 12, 416, N(8, 8), R(2, 8, 8), true),
                       mk_pool<fm::array_pool>("memory_pool<array_pool>", 8, 4, N(8, 8), R(2, 8, 8), true), mk_stack(64, N(8, 8), R(4, 8, 8))}});
@@ -247,6 +276,7 @@ namespace c08
             shape s;
             int   owner; // 0..2 sibling, OWNER_RAW raw upstream
             u32   pat;
+            int   slot; // iteration_allocator: index of the internal stack that was active at allocation
         };
         std::vector<live_t> live;
         int                 raw_allocs = 0;
@@ -266,8 +296,7 @@ namespace c08
         u64 digest_all()
         {
             hasher h;
-            h.bytes(UP().mem, UP().high);
-            h.word(u64(UP().n));
+            UP().digest(h);
             for (int i = 0; i < 3; ++i)
                 sc.s[i]->digest(h);
             return h.get().a;
@@ -285,7 +314,7 @@ namespace c08
         }
         void add_live(void* p, const shape& s, int owner)
         {
-            live_t l{p, s, owner, next_pat++};
+            live_t l{p, s, owner, next_pat++, owner < 3 ? sc.s[owner]->cur_iteration() : 0};
             fill_pattern(p, s.bytes(), l.pat);
             live.push_back(l);
         }
@@ -320,11 +349,10 @@ namespace c08
             }
             if (l.owner == A)
             {
-                // own: does it live in a block of A that is not A's newest one? (first fit without releases: the
-                // newest block of a grown allocator is the one at the highest address)
+                // own: does it live in a block of A that is not A's newest one?
                 int bi = u.find(l.p, 1);
                 for (int i = 0; i < u.n; ++i)
-                    if (u.b[i].owner == A && bi >= 0 && u.b[i].off > u.b[bi].off)
+                    if (u.b[i].owner == A && bi >= 0 && u.b[i].seq > u.b[bi].seq)
                         older_block = true;
                 return "own";
             }
@@ -347,7 +375,9 @@ namespace c08
         {
             static const char* kn[] = {"try_allocate_node", "try_allocate_array", "allocate_node", "allocate_array"};
             if (op == 12)
-                return "R: raw upstream node (16 bytes at the lowest free address)";
+                return "R: raw upstream node (16 bytes)";
+            if (op >= 13 && op <= 15)
+                return fmt("%s.next_iteration()", owner_name(op - 13));
             if (op < 12)
             {
                 auto& s = *sc.s[op / 4];
@@ -367,6 +397,9 @@ namespace c08
                         out.push_back(s * 4 + k);
             if (raw_allocs < MAX_RAW)
                 out.push_back(12);
+            for (int s = 0; s < 3; ++s)
+                if (sc.s[s]->iterations() > 0)
+                    out.push_back(13 + s);
             for (int A = 0; A < 3; ++A)
                 for (std::size_t i = 0; i < live.size() && i < 32; ++i)
                     out.push_back(100 + A * 32 + int(i));
@@ -411,6 +444,21 @@ namespace c08
                     if (p)
                         add_live(p, rs, OWNER_RAW);
                     if (verbose) res = p ? fmt("offset %ld", u.off(p)) : "null";
+                }
+                else if (op >= 13 && op <= 15)
+                {
+                    // memory of an iteration_allocator<N> lives until next_iteration() was called N times: the call
+                    // switches to the next internal stack and unwinds only that one
+                    int   s = op - 13;
+                    auto& S = *sc.s[s];
+                    S.next_iteration();
+                    int cur = S.cur_iteration();
+                    std::size_t before = live.size();
+                    live.erase(std::remove_if(live.begin(), live.end(), [&](const live_t& l) { return l.owner == s && l.slot == cur; }), live.end());
+                    bump("p1_next_iteration");
+                    if (before != live.size())
+                        bump("p1_next_iteration_expired_allocations");
+                    if (verbose) res = fmt("active stack %d, %zu allocation(s) expired", cur, before - live.size());
                 }
                 else if (op < 12)
                 {
@@ -474,19 +522,22 @@ namespace c08
                     bump(own ? "p1_try_dealloc_own" : "p1_try_dealloc_foreign");
                     if (own && older)
                         bump("p1_own_pointer_in_older_block");
+                    bool earlier_iter = own && S.iterations() > 0 && l.slot != S.cur_iteration();
+                    if (earlier_iter)
+                        bump("p1_own_pointer_of_earlier_iteration");
                     if (!std::strcmp(rel, "foreign-starts-at-own-block-end"))
                         bump("p1_foreign_at_block_end");
                     if (!std::strcmp(rel, "foreign-ends-at-own-block-start"))
                         bump("p1_foreign_ends_at_block_start");
                     if (counting()) class_keys().insert(fmt("%s|dealloc|A%d|%s|%d|%s%s|%d", sc.name.c_str(), A, owner_name(l.owner), int(l.s.array), rel,
-                                            own && older ? "-older-block" : "", r ? 1 : 0));
+                                            own && older ? "-older-block" : earlier_iter ? "-earlier-iteration" : "", r ? 1 : 0));
                     if (verbose) res = r ? "true" : "false";
                     if (r != own)
                     {
                         if (own)
                             fail("own-memory-not-recognised",
                                  fmt("%s=%s: try_deallocate_%s returned false for its own live %s at offset %ld%s", owner_name(A), S.name.c_str(),
-                                     l.s.array ? "array" : "node", l.s.str().c_str(), u.off(l.p), older ? " (in an older block of the grown allocator)" : ""));
+                                     l.s.array ? "array" : "node", l.s.str().c_str(), u.off(l.p), older ? " (in an older block of the grown allocator)" : earlier_iter ? " (allocated in an earlier, still live iteration)" : ""));
                         else
                             fail("foreign-memory-accepted",
                                  fmt("%s=%s: try_deallocate_%s returned true for %s at offset %ld handed out by %s (%s)", owner_name(A), S.name.c_str(),
